@@ -135,17 +135,22 @@ pub proof fn axiom_hash_tok_vec(a: &Vec<u8>, b: &Vec<u8>)
     ensures a@ == b@ ==> hash_tok(a) == hash_tok(b),
 {}
 /// T14: slicing an ASCII String by a byte range that lies inside it does not panic and yields those characters
+/// (one axiom per trigger: the precondition must be available before the result exists)
+#[verifier::external_body]
+pub broadcast proof fn axiom_string_index_range_req(s: &String, i: core::ops::Range<usize>)
+    ensures (is_ascii_chars(s@) && i.start <= i.end <= s@.len()) ==> #[trigger] vstd::std_specs::core::IndexSpec::index_req(s, &i),
+{}
 #[verifier::external_body]
 pub broadcast proof fn axiom_string_index_range(s: &String, i: core::ops::Range<usize>, o: &str)
-    ensures
-        (is_ascii_chars(s@) && i.start <= i.end <= s@.len()) ==> #[trigger] vstd::std_specs::core::IndexSpec::index_req(s, &i),
-        (is_ascii_chars(s@) && #[trigger] string_index_rel::<core::ops::Range<usize>>(s, i, o)) ==> o@ == s@.subrange(i.start as int, i.end as int),
+    ensures (is_ascii_chars(s@) && #[trigger] string_index_rel::<core::ops::Range<usize>>(s, i, o)) ==> o@ == s@.subrange(i.start as int, i.end as int),
+{}
+#[verifier::external_body]
+pub broadcast proof fn axiom_string_index_from_req(s: &String, i: core::ops::RangeFrom<usize>)
+    ensures (is_ascii_chars(s@) && i.start <= s@.len()) ==> #[trigger] vstd::std_specs::core::IndexSpec::index_req(s, &i),
 {}
 #[verifier::external_body]
 pub broadcast proof fn axiom_string_index_from(s: &String, i: core::ops::RangeFrom<usize>, o: &str)
-    ensures
-        (is_ascii_chars(s@) && i.start <= s@.len()) ==> #[trigger] vstd::std_specs::core::IndexSpec::index_req(s, &i),
-        (is_ascii_chars(s@) && #[trigger] string_index_rel::<core::ops::RangeFrom<usize>>(s, i, o)) ==> o@ == s@.subrange(i.start as int, s@.len() as int),
+    ensures (is_ascii_chars(s@) && #[trigger] string_index_rel::<core::ops::RangeFrom<usize>>(s, i, o)) ==> o@ == s@.subrange(i.start as int, s@.len() as int),
 {}
 /// T2: ordering of byte slices is lexicographic
 #[verifier::external_body]
@@ -242,7 +247,7 @@ pub broadcast proof fn axiom_ip6_len(a: std::net::Ipv6Addr)
 {}
 
 pub broadcast group group_trusted {
-    axiom_slice_eq, axiom_slice_obeys, axiom_string_index_range, axiom_string_index_from, axiom_starts_with_str, axiom_str_get_from, axiom_trim_start_str, axiom_strip_prefix_str, axiom_vec_bytes_dec_ok, axiom_vec_bytes_dec_post, axiom_lossy_utf8, axiom_bytes_from_vec, axiom_bytes_from_vec_obeys, axiom_vec_len_bound, axiom_bm_len_bound, axiom_arr_eq, axiom_arr_obeys, axiom_vec_eq, axiom_vec_obeys, axiom_string_str_eq, axiom_string_str_obeys, axiom_string_refstr_eq, axiom_string_refstr_obeys, axiom_lossy_v4, axiom_slice_ord, axiom_slice_pord_obeys,
+    axiom_slice_eq, axiom_slice_obeys, axiom_string_index_range_req, axiom_string_index_range, axiom_string_index_from_req, axiom_string_index_from, axiom_starts_with_str, axiom_str_get_from, axiom_trim_start_str, axiom_strip_prefix_str, axiom_vec_bytes_dec_ok, axiom_vec_bytes_dec_post, axiom_lossy_utf8, axiom_bytes_from_vec, axiom_bytes_from_vec_obeys, axiom_vec_len_bound, axiom_bm_len_bound, axiom_arr_eq, axiom_arr_obeys, axiom_vec_eq, axiom_vec_obeys, axiom_string_str_eq, axiom_string_str_obeys, axiom_string_refstr_eq, axiom_string_refstr_obeys, axiom_lossy_v4, axiom_slice_ord, axiom_slice_pord_obeys,
     axiom_vecu8_ord, axiom_vecu8_ord2, axiom_vecu8_borrow,
     axiom_contains_borrowed, axiom_maps_borrowed, axiom_removed_borrowed, axiom_vecu8_cmp,
     axiom_vec_ref, axiom_str_ref, axiom_vec_of, axiom_vec_from_str, axiom_vec_from_slice, axiom_vec_from_str_obeys, axiom_vec_from_slice_obeys, axiom_array_ref,
